@@ -1959,6 +1959,10 @@ result_t MessageMap::add(bool storeByName, Message* message, bool replace) {
     if (isPassive) {
       m_passiveMessageCount++;
     }
+    if (message->m_pollOrder == 0 && message->getPollPriority() > 0) {
+      // a new instance joins the poll cycle where it currently is instead of catching up from order 0
+      message->m_pollOrder = g_lastPollOrder + (unsigned int)message->getPollPriority();
+    }
     addPollMessage(false, message);
   }
   size_t idLength = message->getIdLength();
